@@ -23,6 +23,9 @@ MANIFEST = dict(
 
 def setup():
     simlib.nsim_bin()
+    from .. import e2e
+    e2e.ninja_bin()
+    e2e.vtool_bin()
 
 
 def run(ctx):
@@ -38,8 +41,12 @@ def run(ctx):
         ex["then"] = [dict(retry, targets=ex["targets"])]
     items += missing_source_family(ctx, rng, 300 if quick else 6000)
     sched.run_explore(ctx, "C05", items)
+    # real processes: exit codes and death by signal through the real subprocess layer
+    from .. import e2e
+    seeds = [rng.randint(1, 10 ** 9) for _ in range(120 if quick else 2500)]
+    e2e.parallel(lambda sd: e2e.c05_case(ctx, sd), seeds)
     ctx.rule = ("graphs of 2..6 statements x fault plans x -k x -j x all completion orders (cap %d per graph); retry invocation for the "
-                "first 12 schedules of each graph; missing-source family; distinct_nontrivial = distinct (scenario, interleaving) with "
+                "first 12 schedules of each graph; missing-source family; real-binary runs in which commands exit with codes 1..255 or are killed by a signal; distinct_nontrivial = distinct (scenario, interleaving) with "
                 ">= 2 commands" % (150 if quick else 2500))
 
 
